@@ -311,6 +311,36 @@ def trace_monitor(d, files, timeout=900):
     return allb
 
 
+DIFF_RE = re.compile(r'^"<<\\"(DIFF|SKIP|COMPARED)\\", (\d+), (.*)>>"$')
+
+
+def trace_equal(d, trace_a, trace_b, mode, tag):
+    """TLC (TraceEq.tla) compares two traces run by run; returns (diffs [(run, text)], skipped, compared)."""
+    open(os.path.join(d, "TraceEq.cfg"), "w").write("\n")
+    env = {"TRACE": trace_a, "TRACE2": trace_b, "EQMODE": mode}
+    cmd = ["java", "-XX:+UseParallelGC", "-Xmx6g", "-Xss1g",
+           "-cp", "/opt/veriftools/tla/tla2tools.jar:/opt/veriftools/tla/CommunityModules-deps.jar",
+           "tlc2.TLC", "-workers", "1", "-metadir", os.path.join(d, "meta_eq_" + tag), "-noGenerateSpecTE",
+           "-config", "TraceEq.cfg", "TraceEq.tla"]
+    p = run(cmd, cwd=d, env=env, timeout=1800, check=False)
+    out = p.stdout or ""
+    diffs, skipped, compared = [], 0, 0
+    for line in out.splitlines():
+        m = DIFF_RE.match(line.strip())
+        if not m:
+            continue
+        if m.group(1) == "DIFF":
+            diffs.append((int(m.group(2)), m.group(3).replace('\\"', '"')[:600]))
+        elif m.group(1) == "SKIP":
+            skipped += 1
+        else:
+            compared = int(m.group(2))
+    if compared == 0:
+        open(os.path.join(d, "TraceEq_%s.out" % tag), "w").write(out)
+        raise ToolError("TraceEq did not complete (%s)" % tag)
+    return diffs, skipped, compared
+
+
 # ------------------------------------------------------------------------------------------
 # evidence helpers
 
@@ -404,6 +434,7 @@ def do_check(pid, plan, tier, seed, d, evid_path, t0):
     feats = plan.get("feats", [])
     binp = build_harness(feats)
     violations = []      # (stage, run, prop, why, replay_path)
+    pair_stats = []
     cex_scheds = []      # counterexamples of "finding" model configs, replayed into the code below
     mc_results = []
     total_states = total_trans = 0
@@ -483,6 +514,27 @@ def do_check(pid, plan, tier, seed, d, evid_path, t0):
             sl = sched_lines[rid - 1] if 0 < rid <= len(sched_lines) else None
             rp = save_replay(pid, g["name"], rid, sl, runs.get(rid, []), [b for b in bads if b[0] == rid])
             violations.append((g["name"], rid, prop, why, rp))
+        # ---- paired execution of the same schedules (C16: erased handles, C18: feature sets) ----
+        for pr in g.get("pairs", []):
+            if pr["kind"] == "erased":
+                tr2, rep2 = replay(binp, sp, d, g["name"] + "_erased", via="erased")
+                mode, label = "exact", "erased"
+            else:
+                bin2 = build_harness(pr["feats"])
+                label = feat_key(pr["feats"])
+                tr2, rep2 = replay(bin2, sp, d, g["name"] + "_" + label)
+                mode = "behaviour"
+            diffs, skipped, compared = trace_equal(d, tr, tr2, mode, g["name"] + "_" + label)
+            runs2 = load_runs(tr2)
+            traces += compared
+            pair_stats.append({"stage": g["name"], "against": label, "runs_compared": compared,
+                               "skipped_ask_cycle": skipped, "differing": len(diffs)})
+            for (rid, text) in diffs[:20]:
+                sl = sched_lines[rid - 1] if 0 < rid <= len(sched_lines) else None
+                rp = save_replay(pid, g["name"] + "_" + label, rid, sl,
+                                 {"reference": runs.get(rid, []), "other": runs2.get(rid, [])}, [text])
+                violations.append((g["name"] + "_" + label, rid, pid, "trace differs from the reference execution: " + text[:300], rp))
+            log("stage %s vs %s: %d runs compared, %d skipped (ask cycle), %d differ" % (g["name"], label, compared, skipped, len(diffs)))
         others = sorted({b[2] for b in bads if b[2] != pid})
         if others:
             log("note: stage %s also saw violations of %s (not this check's property)" % (g["name"], others))
@@ -526,7 +578,7 @@ def do_check(pid, plan, tier, seed, d, evid_path, t0):
             "rule": plan.get("rule", ""),
             "samples": samples if samples else [{"note": "no behaviour sample recorded"}],
             "events_validated": events, "model_drift": drift, "first_drifts": first_drifts[:2],
-            "model_configs": mc_results, "extra": extra_cov,
+            "model_configs": mc_results, "extra": extra_cov, "paired_executions": pair_stats,
             "exhaustive": False,
         },
         "assumptions": plan.get("assumptions", []) + [
